@@ -160,7 +160,6 @@ inline sonic_json::JsonPointer to_json_pointer(const std::vector<model::PathElem
 // ---- walker: read a node through the public accessor API
 template <class N>
 void walk(const N& n, std::string& out, int depth = 0) {
-  char b[40];
   if (depth > 300) violate("model", "walk", "nesting deeper than anything the plan built");
   if (n.IsNull()) { out += 'n'; return; }
   if (n.IsBool()) {
@@ -169,25 +168,25 @@ void walk(const N& n, std::string& out, int depth = 0) {
     out += v ? 't' : 'f'; return;
   }
   if (n.IsNumber()) {
-    if (n.IsDouble()) { double d = n.GetDouble(); uint64_t u; memcpy(&u, &d, 8); snprintf(b, sizeof b, "d%016llx", (unsigned long long)u); if (n.IsUint64() || n.IsInt64()) violate("model", "walk", "a double node claims to be an integer"); }
+    if (n.IsDouble()) { double d = n.GetDouble(); uint64_t u; memcpy(&u, &d, 8); out += 'd'; model::put_hex16(out, u); if (n.IsUint64() || n.IsInt64()) violate("model", "walk", "a double node claims to be an integer"); }
     else if (n.IsUint64()) {
       uint64_t u = n.GetUint64();
-      snprintf(b, sizeof b, "u%llu", (unsigned long long)u);
+      out += 'u'; model::put_u64(out, u);
       if (n.IsInt64() != (u <= (uint64_t)INT64_MAX) || (n.IsInt64() && n.GetInt64() != (int64_t)u) || n.GetDouble() != (double)u) violate("model", "walk", "integer getters disagree for an unsigned node");
     }
     else if (n.IsInt64()) {
       int64_t i = n.GetInt64();
-      snprintf(b, sizeof b, "i%lld", (long long)i);
+      out += 'i'; model::put_i64(out, i);
       if (i >= 0 || n.GetDouble() != (double)i) violate("model", "walk", "integer getters disagree for a negative node");
     }
-    else snprintf(b, sizeof b, "?num");
-    out += b; return;
+    else out += "?num";
+    return;
   }
   if (n.IsString()) {
     sonic_json::StringView sv = n.GetStringView();
     if (sv.size() != n.Size()) violate("model", "walk", "string Size() != view size");
     if (n.Empty() != (sv.size() == 0)) violate("model", "walk", "string Empty() wrong");
-    snprintf(b, sizeof b, "s%zu:", sv.size()); out += b; out.append(sv.data(), sv.size()); return;
+    out += 's'; model::put_u64(out, sv.size()); out += ':'; out.append(sv.data(), sv.size()); return;
   }
   if (n.IsArray()) {
     size_t sz = n.Size();
